@@ -2,6 +2,7 @@ package c19
 
 import (
 	"fmt"
+	"sort"
 
 	"verifharness/lib"
 )
@@ -77,6 +78,24 @@ func joinFlow(post bool) flowSpec {
 	return fs
 }
 
+// multiFlow: src → pass c → k sinks, all linked to the pass node's one out-port; with srcToo the
+// source's out-port has a second link as well (to a sink of its own).
+func multiFlow(c, k int, srcToo bool) flowSpec {
+	fs := flowSpec{name: fmt.Sprintf("multi%d", k)}
+	fs.nodes = append(fs.nodes, nodeSpec{kind: "src", outs: map[string]edge{"out": {1, "in"}}},
+		nodeSpec{kind: "pass", c: c, outs: map[string]edge{"out": {2, "in"}}, more: map[string][]edge{}},
+		nodeSpec{kind: "sink"})
+	for i := 1; i < k; i++ {
+		fs.nodes = append(fs.nodes, nodeSpec{kind: "sink"})
+		fs.nodes[1].more["out"] = append(fs.nodes[1].more["out"], edge{len(fs.nodes) - 1, "in"})
+	}
+	if srcToo {
+		fs.nodes = append(fs.nodes, nodeSpec{kind: "sink"})
+		fs.nodes[0].more = map[string][]edge{"out": {{len(fs.nodes) - 1, "in"}}}
+	}
+	return fs
+}
+
 func genFlow(rng *lib.RNG) flowSpec {
 	var fs flowSpec
 	switch rng.Weighted([]int{3, 4, 3, 3}) {
@@ -93,6 +112,38 @@ func genFlow(rng *lib.RNG) flowSpec {
 		fs = fanFlow(rng.Bool())
 	default:
 		fs = joinFlow(rng.Bool())
+	}
+	// fan-out on one port: some out-ports get 1–2 further links (to new sinks); one Write on such a
+	// port is one request, delivered to every linked in-port and answered once, by the joined answer
+	if rng.Chance(1, 2) {
+		n0 := len(fs.nodes)
+		hasJoin := len(fs.indices("join")) > 0
+		for i := 0; i < n0; i++ {
+			if hasJoin && fs.nodes[i].kind == "src" {
+				// a write into a ManyToOne in-port is only handed over once its response is in
+				// (lock-step per source); a second link would keep it in flight while the next
+				// source writes – that race inside the join is C02's, not ours
+				continue
+			}
+			var names []string
+			for name := range fs.nodes[i].outs {
+				names = append(names, name)
+			}
+			sort.Strings(names)
+			for _, name := range names {
+				if !rng.Chance(1, 2) {
+					continue
+				}
+				for k := rng.Range(1, 2); k > 0; k-- {
+					fs.nodes = append(fs.nodes, nodeSpec{kind: "sink"})
+					if fs.nodes[i].more == nil {
+						fs.nodes[i].more = map[string][]edge{}
+					}
+					fs.nodes[i].more[name] = append(fs.nodes[i].more[name], edge{len(fs.nodes) - 1, "in"})
+				}
+			}
+		}
+		fs.name += "+links"
 	}
 	// hold the actions of some nodes back (blocked-action schedules)
 	for i := range fs.nodes {
